@@ -7,9 +7,11 @@ from .. import framework as fw
 from ..impl import Species, Network, Reaction, ReactionType, reset_globals, fnum
 
 TRUST = ["Python dict lookup is modelled as 'first inserted key that compares equal' (hash consistent with ==): "
-         "guaranteed by the hypothesis 'one spelling per species in the list', which the generator enforces"]
+         "holds for one spelling per species and, since fix 3b41211, for the electron under any of its spellings "
+         "(the generator mixes those); the pairwise oracle uses the harness's own equivalence, not Reaction.__eq__"]
 
-ALPHABET = ["H", "H2", "C", "CO", "O", "e-", "H+", "C+", "OH", "H2O", "#CO", "#H2O", "HCO+", "He", "He+"]
+ALPHABET = ["H", "H2", "C", "CO", "O", "e-", "H+", "C+", "OH", "H2O", "#CO", "#H2O", "HCO+", "He", "He+", "E-", "E", "e"]
+ELECTRON = {"e-", "E-", "e", "E"}          # every spelling the package documents for the electron
 TYPES = [ReactionType.GAS_TWOBODY, ReactionType.GAS_COSMICRAY, ReactionType.GAS_PHOTON]
 WINDOWS = [(-1.0, -1.0), (10.0, 300.0), (300.0, 1000.0), (10.0, 41000.0), (0.0, 30.0), (10.04, 300.0), (10.01, 300.0)]
 MODES = [None, "brief", "minimal", "short"]
@@ -32,6 +34,10 @@ def gen_list(rng, n, allow_unknown=False):
             r.append(rng.choice(r))
         if rng.random() < 0.2 and p and len(p) < 5:
             p.append(rng.choice(p))
+        # the electron under another of its spellings
+        if rng.random() < 0.3:
+            r = [rng.choice(sorted(ELECTRON)) if x in ELECTRON else x for x in r]
+            p = [rng.choice(sorted(ELECTRON)) if x in ELECTRON else x for x in p]
         rng.shuffle(r)
         rng.shuffle(p)
         w = rng.choice(WINDOWS[:3]) if rng.random() < 0.7 else rng.choice(WINDOWS)
@@ -81,6 +87,35 @@ def impl_eq(rl, mode):
     return lambda i, j: f"{rl[i]:{mode}}" == f"{rl[j]:{mode}}"
 
 
+def spec_class(name):
+    """species identity as the property uses it, from the name alone (independent of Species.__eq__)"""
+    return "<electron>" if name in ELECTRON else name
+
+
+def mode_eq(desc, mode):
+    """equivalence of two listed reactions under a comparison mode, from the description alone
+    (independent of Reaction.__eq__/__format__)"""
+    def key(d):
+        rc, pc = sorted(spec_class(x) for x in d["r"]), sorted(spec_class(x) for x in d["p"])
+        if mode is None:
+            return (rc, pc, d["tmin"], d["tmax"])
+        if mode == "brief":
+            return (rc, pc)
+        names = (sorted(d["r"]), sorted(d["p"]))
+        if mode == "minimal":
+            return names
+        return (names, f"{d['tmin']:7.1f}", f"{d['tmax']:7.1f}", d["type"])
+
+    def eq(i, j):
+        if key(desc[i]) != key(desc[j]):
+            return False
+        if mode is None:
+            ti, tj = desc[i]["type"], desc[j]["type"]
+            return ti == tj or 999 in (ti, tj)
+        return True
+    return eq
+
+
 def reference(n, eq):
     """pairwise reference: (dupidx, first) and whether eq is an equivalence on the list"""
     m = [[bool(eq(i, j)) for j in range(n)] for i in range(n)]
@@ -111,8 +146,18 @@ def check_case(res, model, desc, mode, ids, tag):
     net, rl = build_net(desc)
     n = len(rl)
     dupidx, first, dupes_pos = impl_report(net, rl, mode)
-    ref_dup, ref_first, is_equiv = reference(n, impl_eq(rl, mode))
+    want_eq = mode_eq(desc, mode)
+    ref_dup, ref_first, is_equiv = reference(n, want_eq)
     case = {"kind": "c15", "desc": desc, "mode": mode}
+    # the package's own comparison must be the mode's equivalence on every pair of the list
+    ieq = impl_eq(rl, mode)
+    for i in range(n):
+        for j in range(i + 1, n):
+            if bool(ieq(i, j)) != want_eq(i, j) or bool(ieq(j, i)) != want_eq(i, j):
+                d = lambda k: f"{'+'.join(desc[k]['r'])}->{'+'.join(desc[k]['p'])} [{desc[k]['tmin']},{desc[k]['tmax']}] type {desc[k]['type']}"
+                res.violation("oracle", f"mode={mode}: reactions {i} ({d(i)}) and {j} ({d(j)}) are {'equivalent' if want_eq(i, j) else 'different'} "
+                              f"but the package compares them as {'equal' if ieq(i, j) else 'unequal'}", case)
+                return None
     res.count(f"mode={mode}")
     res.count(f"n_dups={min(len(ref_dup), 5)}{'+' if len(ref_dup) >= 5 else ''}")
     if not is_equiv:
@@ -167,10 +212,10 @@ def run(res, info):
     model = fw.Model() if info["ok"] else None
     reset_globals()
     ids = ident_map()
-    res.rule = ("duplicate-rich reaction lists over a 15-species alphabet (1-3 reactants with repeats, 0-4 products, "
+    res.rule = ("duplicate-rich reaction lists over an 18-name alphabet (four electron spellings) (1-3 reactants with repeats, 0-4 products, "
                 "permuted, windows/types varied) x modes {default, brief, minimal, short}; a case is non-trivial when "
                 "the pairwise reference reports at least one duplicate; distinct = distinct (list, mode)")
-    res.assumptions = ["one spelling per species inside a list (docstring caveat of find_duplicate_reaction)",
+    res.assumptions = ["one spelling per species inside a list, except for the electron (docstring caveat of find_duplicate_reaction)",
                        "default mode: lists without UNKNOWN-typed reactions (otherwise __eq__ is not an equivalence; known finding)"]
     n_lists = 150 if res.tier == "quick" else 3000
     # exhaustive tiny scope first: all lists of length <= 3 over 3 templates x 2 permutations
